@@ -238,7 +238,7 @@ func c13NoAttachDeleted(c *Ctx) *RuleResult {
 				if okFromLookupIn(u, g.Cond, recv) {
 					okG, why = true, "an existing entry was found in the same contents"
 				}
-			case !g.Pos && strings.HasSuffix(s, "!= StatusOK"):
+			case g.Pos && strings.HasSuffix(s, "== StatusOK"):
 				src := resolveLocalAliasNearest(u, ast.Unparen(g.Cond).(*ast.BinaryExpr).X, call.Pos())
 				if strings.HasPrefix(exprStr(src), recv+".virtualMayAttach(") {
 					okG, why = true, "virtualMayAttach == StatusOK"
@@ -342,8 +342,8 @@ func c13Reseek(c *Ctx) *RuleResult {
 
 func init() {
 	register(&PropertySpec{
-		ID:    "C13",
-		Level: "other",
+		ID:          "C13",
+		Level:       "other",
 		Explanation: "Only structural clauses are decided: directory contents are accessed only under a directory lock (lock-flow engine with a guarded-by table); the change counter has a single incrementing writer, every map change bumps it on all paths, cookies are pre-increment values and ChangeInfo brackets the modification; nothing is attached to a removed directory; a listing re-seeks from its current entry. Equivalence with a POSIX reference model (rename/remove rules, hard links) and readdir completeness under concurrent mutation are NOT decided.",
 		Assumptions: []string{"class-level lock identity: a lock of some directory counts for the directory being accessed (parent/child relations are not tracked)"},
 		Rules:       []RuleFunc{c13Guarded, c13ChangeID, c13NoAttachDeleted, c13Reseek, c13DeleteSelf, c13LinkBalance},
